@@ -372,4 +372,6 @@ def layout(W, order):
     raise ValueError(order)
 
 
-ORDERS = ["C", "C", "F", "T", "S"]
+# Hypothesis tends to produce minimal values for the draws that come late in an example: the FIRST entry of a choice list should
+# therefore be an interesting one, not the trivial one (measured: with "C" first, non-C layouts almost only met maxswap=0)
+ORDERS = ["F", "C", "T", "S", "C"]
